@@ -37,7 +37,8 @@ def gen_one(rng, tier):
     if rng.random() < 0.7:
         train.append(["sync"])
     k = rng.choice([0, 1, 2, 2, 3, 4])
-    return {"nparams": n, "inf": inf, "train": train, "preempt": sorted(rng.sample(range(0, 260), k)), "distinct": rng.random() < 0.5}
+    # preemption points as fractions of the length of the un-preempted run (measured by the runner)
+    return {"nparams": n, "inf": inf, "train": train, "preempt": [], "preempt_frac": sorted(round(rng.random(), 3) for _ in range(k)), "distinct": rng.random() < 0.5}
 
 
 def gen(rng, tier):
@@ -46,6 +47,9 @@ def gen(rng, tier):
         base = {"nparams": 2, "inf": [["unwrap"], ["infer"]], "train": [["step"], ["sync"], ["step"], ["sync"]], "distinct": True}
         for a in range(0, 200):
             cases.append(dict(base, preempt=[a]))
+        for a in range(0, 200, 2):
+            for b in range(a + 1, 200, 7):
+                cases.append(dict(base, preempt=[a, b]))
         for _ in range(6000):
             cases.append(gen_one(rng, tier))
         return cases
@@ -164,6 +168,9 @@ def shrink(case):
                 out.append(c)
     for i in range(len(case["preempt"])):
         c = dict(case); c["preempt"] = case["preempt"][:i] + case["preempt"][i + 1:]; out.append(c)
+    pf = case.get("preempt_frac") or []
+    for i in range(len(pf)):
+        c = dict(case); c["preempt_frac"] = pf[:i] + pf[i + 1:]; out.append(c)
     if case["nparams"] > 2:
         c = dict(case); c["nparams"] = 2; out.append(c)
     return out
@@ -183,7 +190,7 @@ def distribution(cases, obs):
             d["sections"][s[0]] += 1
         d["syncs"] += sum(1 for t in c["train"] if t[0] == "sync")
         d["steps"] += sum(1 for t in c["train"] if t[0] == "step")
-        k = str(len(c["preempt"])); d["preempt_points"][k] = d["preempt_points"].get(k, 0) + 1
+        k = str(len(c.get("preempt_frac") or c["preempt"])); d["preempt_points"][k] = d["preempt_points"].get(k, 0) + 1
     return d
 
 
